@@ -280,7 +280,7 @@ D(g, X, p, c, env) ==
     [] o \in {"sel", "selr"} -> one(t \in SeqToSet(g[2]), VM("sel", VT(t)), {"else"})
     [] o = "end" -> IF t = "" THEN R(TRUE, p, VU, <<>>, {}) ELSE Fail({EvTok(X, p, {"eoi"})})
     [] o \in {"empty", "probe"} -> R(TRUE, p, VU, <<>>, {})
-    [] o = "cust" ->
+    [] o \in {"cust", "ext"} ->
          LET a == XAdvK(X, p, g[2], 0) IN
          IF a[2] = g[2] /\ g[3] THEN R(TRUE, a[1], VC(g[2]), <<>>, {})
          ELSE Fail({EvUser(X, p, p, a[1], "cu")})
